@@ -86,6 +86,13 @@ CHECKS = {
         "byte-identical report bodies, and hash function / prefix / suffix / device type / cache variations identical partitions, every run under a 60 s bound.",
    note="real schedules are sampled, the exhaustive part is on the model; with --isolate only the groups are compared under root permutation",
    tech="TLC model checking (safety + liveness) + hook trace validation + metamorphic replay of the configuration matrix"),
+ "C12": dict(cat="model_checking", sec="5 C12",
+   text="Cache.tla models the cache tables (key = file id + chunk, validation by mtime ms + length, one table per hash function / transform), arbitrary edits that respect the precondition "
+        "(incl. inode reuse, kept or older mtimes, length-only changes), configuration switches and interrupted runs; TLC checks Sound (a valid entry is what an uncached run computes) "
+        "for all histories up to the bound. Seeded histories are replayed on real files (ext4 and tmpfs, explicit mtimes) with a persistent private cache: after every step `group --cache` and "
+        "plain `group` must print identical report bodies; hook events count the cache hits (vacuity guard).",
+   note="precondition read as 'content is a function of (mtime ms, length) per file over the history' (see DESIGN.md 5.0)",
+   tech="TLC model checking of the cache design + randomized history replay (cached vs uncached) on the real binary"),
 }
 
 def main():
